@@ -139,11 +139,21 @@ fn to_rtree(b: &Built<u32>, log: &[Entry], id: usize) -> RTree {
 }
 
 fn check_grammar(ctx: &Ctx, g: &RefGrammar, n: usize, only: Option<(&Vec<usize>, bool)>) -> Stats {
+    ctx.guard(
+        &format!("building the table of / parsing with {}", g.short()),
+        || json!({"grammar": g.to_json(), "input": [], "recovery": false}),
+        Stats::default(),
+        || check_grammar_inner(ctx, g, n, only),
+    )
+}
+
+fn check_grammar_inner(ctx: &Ctx, g: &RefGrammar, n: usize, only: Option<(&Vec<usize>, bool)>) -> Stats {
     let mut st = Stats::default();
     st.grammars = 1;
     let b: Built<u32> = match build(g) {
         Ok(b) => b,
-        Err(_) => return st,
+        Err(vcore::real::BuildErr::Table(_)) => return st,
+        Err(e) => crate::common::machinery(&format!("the harness rendered a grammar it cannot build / map: {}: {:?}", g.short(), e)),
     };
     st.states = b.nstates() as u64;
     let an = analyse(g);
